@@ -584,7 +584,8 @@ def write_evidence(prop, tier, verif_seed, scn, agg, hists, nontrivial, states, 
             'distinct_schedules': int(len(schedules)),
             'components': {'real': ['lentil (working tree of %s)' % lentil_root(), 'numpy', 'scipy'],
                            'simulated': ['callers', 'caller-owned buffers', 'call schedule',
-                                         'numpy global RNG seeding', 'DFT coordinate cache size'],
+                                         'numpy global RNG seeding', 'DFT coordinate cache size',
+                                         'process history (fork per chunk, cold/warm audit, pristine-process evaluator)'],
                            'stub': []},
             'known_findings_seen': known_seen,
             'explanation': expl,
